@@ -179,6 +179,8 @@ class PathInterp:
 
     def _atom(self, t, ev):
         """True/False if decidable from the valuation or by constant folding, else None."""
+        if isinstance(t, (ast.Name, ast.Attribute)) and dotted(t) in self.valuation and self.valuation[dotted(t)] != NZ:
+            return bool(self.valuation[dotted(t)])          # truth value of a flag pinned by the caller
         if isinstance(t, ast.Compare) and len(t.ops) == 1:
             l, r = t.left, t.comparators[0]
             ln = dotted(l)
